@@ -704,9 +704,22 @@ class UnionT(Node):
         for _ in range(6):
             c = rng.choice(self.children)
             x = c.gen(rng)
-            if self.dump_case(x) is c:
+            if self.dump_case(x) is c and self._round_trips(c, x):
                 return x
         raise LookupError("no value whose runtime class identifies its union case")
+
+    def _round_trips(self, c, x):
+        """Values whose dump another case takes first (EMix.N dumps to None, which Optional loads as None) are not generated:
+        nothing promises that such a value survives dump + load (thorough-tier false alarm of the C02 reference self-check)."""
+        try:
+            d = c.dump(x)
+        except LookupError:
+            return False
+        for sc in (True, False):
+            v = self.accept(d, sc)
+            if v.k == R or (v.k == A and v.vals is not None and not any(strict_eq(x, y) or strict_eq(y, x) for y in v.vals)):
+                return False
+        return True
 
     def dump_case(self, x):
         """Documented dispatch: Literal members first, then runtime class with nearest-MRO-ancestor fallback."""
